@@ -751,6 +751,8 @@ impl<Aux> Vm<'_, Aux> {
                     instr_execution::close_upvalues(self).map_err(|err| {
                         payload_to_error(err, *instr_ptr, &self.runtime_data.call_stack)
                     })?;
+                    // the captured local goes out of scope, just like with `Pop`
+                    self.stack_pop();
                 }
             }
             debug!("Stack: {}", self.runtime_data.value_stack);
